@@ -27,7 +27,7 @@ import itertools
 import json
 
 STREAMS = ['corpus-and-exemplars', 'interleavings-exhaustive', 'foreign-messages', 'bodies-reencode',
-           'full-rule-language', 'histories-random']
+           'full-rule-language', 'buses-and-dropped-links', 'histories-random']
 THEOREMS = ['unique_names_fresh', 'unique_names_never_reused', 'unicast_exact', 'owner_unique',
             'sender_is_true', 'remarshal_keeps', 'unchanged_except_sender', 'remarshal_drops_extra_fields',
             'order_preserved', 'bus_calls_answered_not_forwarded', 'disconnect_completes',
@@ -306,6 +306,10 @@ class Net:
         self.steps = []
         self.cur = None
         self.aborted = None
+        self.model_off = None          # a link failed with an exception: the oracle goes on, the model comparison stops
+        self.ref_differs = 0           # events at which the reference owner table and the bus's own table differ
+        self.stray = []                # writes to a client of this bus while this bus processed nothing
+        self._wend = 0                 # length of the write log at the end of the last event of this bus
         self.unprocessed = None
         self.harness_error = None      # the harness's own reach into an internal failed (never a finding)
         self.no_model = None           # why the effects / dispatch observation is unavailable in this tree
@@ -394,6 +398,8 @@ class Net:
 
             def sendFileDescriptor(self, fd):
                 net.fdlog.append((idx, fd, len(net.wlog)))
+        self.check_stray('connect')
+        n0 = len(self.wlog)
         p = self.busmod.BusProtocol()
         p.factory = self.factory
         t = T()
@@ -401,7 +407,8 @@ class Net:
         p.dataReceived(b'\0AUTH ANONYMOUS\r\nBEGIN\r\n')
         if not p._authenticated:
             raise RuntimeError('ANONYMOUS authentication did not complete')
-        del self.wlog[:]           # the OK line
+        self.wlog[n0:] = [e for e in self.wlog[n0:] if e[0] != idx]     # the OK line
+        self._wend = len(self.wlog)
         c = {'p': p, 't': t, 'alive': True, 'ruled': False}
         self.clients.append(c)
         real = p.rawDBusMessageReceived
@@ -423,6 +430,18 @@ class Net:
         self.steps.append(st)
         return idx
 
+    def check_stray(self, where):
+        """Everything the bus does is synchronous: between two events of THIS bus nothing may be written to its
+        clients (a write that shows up here was caused by an event of another bus sharing state with this one)."""
+        if len(self.wlog) != self._wend:
+            for j, raw in self.wlog[self._wend:]:
+                try:
+                    d = show_payload(parse(self.message, raw))
+                except Exception:
+                    d = raw[:40].hex()
+                self.stray.append({'to': j, 'before': where, 'message': d})
+            self._wend = len(self.wlog)
+
     def guarded(self, fn, *a):
         """Run the harness's own bookkeeping; its failures (a moved internal) are the harness's, not the bus's."""
         try:
@@ -442,6 +461,7 @@ class Net:
         st.exc = None
         st.op = None
         self.cur = st
+        self.check_stray('%s of connection %d' % (kind, i))
         self._w0 = len(self.wlog)
         self._dis0 = self.clients[i]['t'].lose_calls
         self.effects = []
@@ -472,6 +492,7 @@ class Net:
         else:
             st.op = ('always',)
         self.steps.append(st)
+        self._wend = len(self.wlog)
 
     def feed(self, i, raws):
         """One read carrying the messages `raws` from client i; then what the reactor does."""
@@ -486,7 +507,8 @@ class Net:
             self.aborted = 'harness'
             return
         except Exception as e:
-            self.aborted = '%s: %s' % (type(e).__name__, str(e)[:200])
+            # what Twisted does with an exception out of dataReceived: this connection is lost - the others go on
+            self.link_failed(i, e)
             return
         got = len(self.steps) - n0
         if got != len(raws):
@@ -508,7 +530,12 @@ class Net:
             self.harness_error = str(e)
             self.aborted = 'harness'
         except Exception as e:
-            self.aborted = '%s: %s' % (type(e).__name__, str(e)[:200])
+            self.link_failed(i, e)
+
+    def link_failed(self, i, e):
+        self.model_off = self.model_off or '%s: %s' % (type(e).__name__, str(e)[:200])
+        self._wend = len(self.wlog)
+        self.disconnect(i)
 
     def disconnect(self, i):
         from twisted.python.failure import Failure
@@ -521,8 +548,9 @@ class Net:
             try:
                 c['p'].connectionLost(Failure(ConnectionDone()))
             except Exception as e:
+                # connectionLost itself raised: the connection is gone all the same, the others go on
                 self.cur.exc = '%s: %s' % (type(e).__name__, str(e)[:200])
-                self.aborted = self.cur.exc
+                self.model_off = self.model_off or self.cur.exc
             self.guarded(self.end)
         except HarnessReach as e:
             self.harness_error = str(e)
@@ -950,41 +978,47 @@ def parse_rule(text):
 
 
 # --------------------------------------------------------------------------- running a history
-def run_history(ops):
-    """Apply the history to a fresh real bus.  Returns (net, lines) with one driver line per Step."""
-    net = Net()
-    B = bodies()
-    for op in ops:
-        if net.aborted:
-            break
-        k = op[0]
-        if k == 'connect':
-            net.connect()
-        elif k == 'disc':
-            if op[1] < len(net.clients):
-                net.disconnect(op[1])
-        elif k == 'split':
-            # ['split', i, op_i, cut, j, op_j]: the first `cut` bytes of i's message, then a whole read from j, then
-            # the rest of i's message: the bus sees j's message first, then i's
-            _, i, op_i, cut, j, op_j = op
-            if max(i, j) >= len(net.clients) or not (net.clients[i]['alive'] and net.clients[j]['alive']) or i == j:
-                continue
-            names = [c['p'].uniqueName for c in net.clients]
-            raw_i = b''.join(build(net.message, B, md) for md in op_to_msgs(op_i, names))
-            raw_j = [build(net.message, B, md) for md in op_to_msgs(op_j, names)]
-            cut = max(1, min(len(raw_i) - 1, cut))
-            net.feed_bytes(i, raw_i[:cut])
-            net.feed(j, raw_j)
-            if net.clients[i]['alive']:
-                net.feed(i, [raw_i[cut:]])
-        else:
-            i = op[1]
-            if i >= len(net.clients) or not net.clients[i]['alive']:
-                continue
-            names = [c['p'].uniqueName for c in net.clients]
-            # a client that has not been named yet learns its name only from Hello: '@i' then is a guess
-            raws = [build(net.message, B, md) for md in op_to_msgs(op, names)]
-            net.feed(i, raws)
+def apply_op(net, B, op):
+    """One operation of a history on one bus."""
+    k = op[0]
+    if k == 'connect':
+        net.connect()
+    elif k == 'disc':
+        if op[1] < len(net.clients):
+            net.disconnect(op[1])
+    elif k == 'garbage':
+        # a complete frame that is not a DBus message (message type 9): parsing raises out of dataReceived, which is
+        # a lost connection for THIS client; everybody else goes on
+        i = op[1]
+        if i < len(net.clients) and net.clients[i]['alive']:
+            import struct
+            net.feed_bytes(i, b'l\x09\x00\x01' + struct.pack('<III', 0, op[2], 0))
+    elif k == 'split':
+        # ['split', i, op_i, cut, j, op_j]: the first `cut` bytes of i's message, then a whole read from j, then
+        # the rest of i's message: the bus sees j's message first, then i's
+        _, i, op_i, cut, j, op_j = op
+        if max(i, j) >= len(net.clients) or not (net.clients[i]['alive'] and net.clients[j]['alive']) or i == j:
+            return
+        names = [c['p'].uniqueName for c in net.clients]
+        raw_i = b''.join(build(net.message, B, md) for md in op_to_msgs(op_i, names))
+        raw_j = [build(net.message, B, md) for md in op_to_msgs(op_j, names)]
+        cut = max(1, min(len(raw_i) - 1, cut))
+        net.feed_bytes(i, raw_i[:cut])
+        net.feed(j, raw_j)
+        if net.clients[i]['alive']:
+            net.feed(i, [raw_i[cut:]])
+    else:
+        i = op[1]
+        if i >= len(net.clients) or not net.clients[i]['alive']:
+            return
+        names = [c['p'].uniqueName for c in net.clients]
+        # a client that has not been named yet learns its name only from Hello: '@i' then is a guess
+        raws = [build(net.message, B, md) for md in op_to_msgs(op, names)]
+        net.feed(i, raws)
+
+
+def net_lines(net):
+    """One driver line per Step of one bus."""
     lines = []
     for st in net.steps:
         if st.kind == 'connect':
@@ -1007,7 +1041,39 @@ def run_history(ops):
                 st.i, s['t'], s['serial'], s['flags'], tok(s['path']), tok(s['iface']), tok(s['member']),
                 tok(s['err']), tok(s['rs']), tok(s['dest']), tok(s['sender']), s['extra'] or '-', s['btok'],
                 enc_args(s['args']), opt))
-    return net, [ln.rstrip() for ln in lines]
+    return [ln.rstrip() for ln in lines]
+
+
+def run_histories(ops):
+    """Apply the history to fresh real buses.  An operation `['on', k, op]` goes to bus k (its own `Bus()`, its own
+    clients), any other operation to bus 0: several buses of one process, interleaved event by event.  Returns
+    [(net, driver lines)] per bus, in bus order."""
+    nets = {}
+    B = bodies()
+
+    def net_of(k):
+        if k not in nets:
+            nets[k] = Net()
+        return nets[k]
+    net_of(0)
+    for op in ops:
+        k = 0
+        if op[0] == 'on':
+            k, op = op[1], op[2]
+        net = net_of(k)
+        if net.aborted:
+            continue
+        apply_op(net, B, op)
+    out = []
+    for k in sorted(nets):
+        nets[k].check_stray('the end of the history')
+        out.append((nets[k], net_lines(nets[k])))
+    return out
+
+
+def run_history(ops):
+    """Single-bus histories: (net, lines) of bus 0."""
+    return run_histories(ops)[0]
 
 
 def show_payload(d):
@@ -1085,7 +1151,9 @@ def rule_matches_spec(rule, m, heads=None, names=None, ignore_sender=False, igno
             return False               # only messages built by the bus itself come from org.freedesktop.DBus
         else:
             owner = (heads or {}).get(v)
-            if owner is None or names is None or names[owner] != m['sender']:
+            if owner == '?':
+                undecided = True       # the reference cannot say who owns that name right now
+            elif owner is None or names is None or names[owner] != m['sender']:
                 return False
     for k, f in (('interface', 'iface'), ('member', 'member'), ('path', 'path'), ('destination', 'dest')):
         if k in rule and m[f] != rule[k]:
@@ -1202,6 +1270,105 @@ def compare_forwarded(add, d, m):
             'equal)', (d['endian'], d['rawbody']), (m['endian'], m['rawbody']))
 
 
+class RefNames:
+    """Who owns a well-known name, from the HISTORY alone (never from the bus's own table): the name-ownership rules
+    of the DBus specification as property C13 states them.  Per name a queue of [connection, allow_replacement],
+    head = owner.
+      RequestName(c, n, flags)   nobody owns n: c owns it.  c owns it: its allow flag is updated.  Somebody else does:
+                                 REPLACE_EXISTING and the owner allowed replacement -> c owns it, the former owner is
+                                 out; otherwise DO_NOT_QUEUE -> c is out of the queue; otherwise c waits (once) and its
+                                 allow flag is the one of its LATEST request.
+      ReleaseName(c, n)          c leaves the queue of n; the longest-waiting connection becomes the owner.
+      disconnect(c)              c leaves every queue.
+    A replaced owner is taken out of the queue (C13's specification and txdbus agree on that instance; the DBus text
+    would let it wait when it had not asked for DO_NOT_QUEUE): after a replacement the name is marked `unsure` until
+    the replaced connection asks again, releases or leaves - nothing is demanded for an unsure name whose answer
+    depends on that choice."""
+
+    def __init__(self):
+        self.q = {}
+        self.maybe = {}        # name -> connections that the DBus text would still have waiting
+        self.anchor = {}       # name -> the connection that replaced the owner (owner under both readings while it stays)
+
+    def owner(self, n):
+        q = self.q.get(n)
+        return q[0][0] if q else None
+
+    def heads(self):
+        return dict((n, q[0][0]) for n, q in self.q.items() if q)
+
+    def ambiguous(self, n):
+        """The owner of n could be somebody else under the other reading (a replaced owner still waiting): a replaced
+        connection has not spoken since, and the connection that replaced it is no longer the owner."""
+        return bool(self.maybe.get(n)) and self.owner(n) != self.anchor.get(n)
+
+    def heads_for_rules(self):
+        h = self.heads()
+        for n in self.maybe:
+            if self.ambiguous(n):
+                h[n] = '?'
+        return h
+
+    def _drop(self, n, c):
+        q = self.q.get(n, [])
+        q[:] = [e for e in q if e[0] != c]
+        if not q:
+            self.q.pop(n, None)
+
+    def request(self, c, n, flags):
+        allow, replace, noqueue = bool(flags & 1), bool(flags & 2), bool(flags & 4)
+        self.maybe.get(n, set()).discard(c)
+        q = self.q.setdefault(n, [])
+        if not q:
+            q.append([c, allow])
+        elif q[0][0] == c:
+            q[0][1] = allow
+        elif replace and q[0][1]:
+            old = q[0][0]
+            q[:] = [[c, allow]] + [e for e in q[1:] if e[0] != c]
+            self.maybe.setdefault(n, set()).add(old)
+            self.anchor[n] = c
+        elif noqueue:
+            self._drop(n, c)
+        else:
+            for e in q:
+                if e[0] == c:
+                    e[1] = allow
+                    break
+            else:
+                q.append([c, allow])
+
+    def release(self, c, n):
+        self.maybe.get(n, set()).discard(c)
+        self._drop(n, c)
+
+    def disconnect(self, c):
+        for n in list(self.q):
+            self._drop(n, c)
+        for n in self.maybe:
+            self.maybe[n].discard(c)
+
+
+def name_call(m):
+    """('request', name, flags) / ('release', name) when `m` is a well-formed RequestName / ReleaseName call to the bus."""
+    import ast
+    if not (m['t'] == 1 and m['dest'] == BUS and m['path'] == BUSPATH and m['iface'] in (None, BUS)):
+        return None
+    try:
+        body = ast.literal_eval(m['body']) if m['body'] else None
+    except (ValueError, SyntaxError):
+        return None
+    import re
+    if not (body and isinstance(body[0], str)
+            and re.match(r'^[A-Za-z_-][A-Za-z0-9_-]*(\.[A-Za-z_-][A-Za-z0-9_-]*)+$', body[0]) and len(body[0]) <= 255):
+        return None                    # not a well-known bus name: a bus refuses it
+    if m['member'] == 'RequestName' and m['sig'] == 'su':
+        return ('request', body[0], int(body[1]))
+    if m['member'] == 'ReleaseName' and m['sig'] == 's':
+        return ('release', body[0])
+    return None
+
+
 def oracle(net):
     """Judge the implementation's trace against the property statement.  Returns a list of
     (key, what, observed, expected)."""
@@ -1211,6 +1378,7 @@ def oracle(net):
     names = [None] * nclients          # allocated unique names, by connection
     ever = {}                          # name -> connection it was first given to
     held = [[] for _ in range(nclients)]
+    ref = RefNames()                   # owners of well-known names, from the history alone
     opaque = [False] * nclients        # holds a registration whose text this oracle could not read: not judged
     dead_rules = [[] for _ in range(nclients)]
     helloed = [False] * nclients
@@ -1221,25 +1389,38 @@ def oracle(net):
     def add(key, what, observed=None, expected=None):
         V.append((key, what, observed, expected))
 
+    for sw in net.stray:
+        add('delivery-outside-any-event', 'connection %(to)d of this bus was written to while this bus processed nothing '
+            '(found before %(before)s): %(message)s' % sw, sw['message'], 'nothing is written between two events of a bus')
     for st in net.steps:
         i = st.i
         if st.kind == 'connect':
             alive[i] = True
             continue
         m = st.sent
+        heads = ref.heads()                # before this event
+        rule_heads = ref.heads_for_rules()
+        # statistic only (never part of a judgement): does the bus's own table say the same?
+        if heads != st.heads:
+            net.ref_differs += 1
         if st.exc:
-            if malformed_by_generator(m):
-                break                  # the bus refused an invalid name: a lost connection, nothing to judge
-            low = st.exc
-            if low.startswith('TypeError') and 'parseMessage' in low:
-                add('bus-parse-typeerror', 'the bus raised %s on a received message' % st.exc, st.exc, 'message processed')
-            elif low.startswith('error') or 'struct' in low or 'format requires' in low:
-                add('bus-reencode-fails', 'the bus could not re-serialise a valid message: %s' % st.exc, st.exc,
-                    'message forwarded unchanged')
-            else:
-                add('bus-raises-on-message', 'the bus raised %s while handling a well-formed event' % st.exc, st.exc,
-                    'event handled')
-            break
+            # the link that raised is dropped (the harness does what Twisted does), everybody else goes on
+            if not malformed_by_generator(m):
+                low = st.exc
+                if low.startswith('TypeError') and 'parseMessage' in low:
+                    add('bus-parse-typeerror', 'the bus raised %s on a received message' % st.exc, st.exc, 'message processed')
+                elif low.startswith('error') or 'struct' in low or 'format requires' in low:
+                    add('bus-reencode-fails', 'the bus could not re-serialise a valid message: %s' % st.exc, st.exc,
+                        'message forwarded unchanged')
+                else:
+                    add('bus-raises-on-message', 'the bus raised %s while handling a well-formed event' % st.exc, st.exc,
+                        'event handled')
+            if st.kind == 'disc':
+                alive[i] = False
+                dead_rules[i] = held[i]
+                held[i] = []
+                ref.disconnect(i)
+            continue                   # what this half-finished event delivered is not judged
         # ---- names: whenever the bus gives a connection its name (txdbus: on its first message; on connect would be
         # just as good), the name must be fresh and must stay
         for j in range(len(st.names_before)):
@@ -1263,10 +1444,6 @@ def oracle(net):
         # ---- nobody who is gone receives anything
         for j, d in st.deliv:
             if not alive[j] or (st.kind == 'disc' and j == i):
-                wk_dead_owner = (m is not None and not from_bus(d) and m['dest'] and m['dest'][0] != ':'
-                                 and st.heads.get(m['dest']) == j)
-                if wk_dead_owner:
-                    continue           # C13's table names a dead owner: not judged here
                 if from_bus(d) and d['t'] == 4 and d['dest'] is not None:
                     continue           # sendSignal(p, ...) by a name function to a dead queue member: C13's
                 if dead_rules[j] or (st.kind == 'disc' and j == i and held[j]):
@@ -1289,7 +1466,7 @@ def oracle(net):
             got_b = set(j for j, _ in items if j in listeners)
 
             def match_b(r, **kw):
-                return rule_matches_spec(r, sigmsg, st.heads, names, bus_built=True, **kw)
+                return rule_matches_spec(r, sigmsg, rule_heads, names, bus_built=True, **kw)
             missed, s_ign, a_ign, rest = judge_receivers(lambda j: held[j], listeners, got_b, match_b)
             what = 'the bus\'s own signal %s' % sigmsg['member']
             if s_ign:
@@ -1314,6 +1491,7 @@ def oracle(net):
             alive[i] = False
             dead_rules[i] = held[i]
             held[i] = []
+            ref.disconnect(i)
             continue
         # ---- a message from connection i
         true = names[i]
@@ -1338,7 +1516,7 @@ def oracle(net):
         mprime['sender'] = true
 
         def matches(r, **kw):
-            return rule_matches_spec(r, mprime, st.heads, names, **kw)
+            return rule_matches_spec(r, mprime, rule_heads, names, **kw)
 
         def lax(r):
             # "holds a rule that made the router deliver this", whatever the unevaluated constraints say
@@ -1362,8 +1540,8 @@ def oracle(net):
                 else:
                     key = 'bus-addressed-message-forwarded'
                 add(key, 'a message (type %d) addressed to the bus itself was delivered to connection(s) %s%s'
-                    % (m['t'], receivers, '; connection %s holds the NAME org.freedesktop.DBus' % st.heads[BUS]
-                       if BUS in st.heads else ''), receivers, [])
+                    % (m['t'], receivers, '; connection %s holds the NAME org.freedesktop.DBus' % heads[BUS]
+                       if BUS in heads else ''), receivers, [])
             if m['t'] == 1:
                 mine = [d for j, d in replies if j == i]
                 other = [j for j, d in replies if j != i]
@@ -1383,6 +1561,13 @@ def oracle(net):
                             add('hello-reply-wrong-name', 'the reply to the first Hello of connection %d (%s) is %s %r'
                                 % (i, true, 'a return with body' if d['t'] == 2 else 'an error', body), body, [true])
             sent_order.setdefault((true, dest), []).append(m['serial'])
+            # ---- the reference name table follows the history: a RequestName / ReleaseName the bus did not refuse
+            nc = name_call(m)
+            if nc is not None and not any(j == i and d['t'] == 3 for j, d in replies):
+                if nc[0] == 'request':
+                    ref.request(i, nc[1], nc[2])
+                else:
+                    ref.release(i, nc[1])
         elif dest:
             # unicast: exactly once to the owner, to no other
             judge = True
@@ -1390,9 +1575,10 @@ def oracle(net):
                 own = [j for j in range(nclients) if alive[j] and names[j] == dest]
                 owner = own[0] if own else None
             else:
-                owner = st.heads.get(dest)
-                if owner is not None and not alive[owner]:
-                    judge = False          # dead owner in C13's table
+                # the owner according to the HISTORY (RefNames), not according to the bus's own table
+                owner = heads.get(dest)
+                if ref.ambiguous(dest):
+                    judge = False          # the name-ownership rules leave two readings (a replaced owner)
             if judge:
                 expected = [owner] if owner is not None else []
                 if receivers != expected:
@@ -1463,20 +1649,37 @@ def net_name_after(net, st):
 SKIPPED = {'n': 0, 'judged': 0, 'no_model': 0, 'why': []}
 
 
+def oracle_all(ops):
+    """Violations of a (possibly multi-bus) history: the oracle on every bus of it."""
+    out = []
+    for net, _ in run_histories(ops):
+        out.extend(oracle(net))
+    return out
+
+
 def judge(ctx, stream, ops, model=True, collect=None):
     try:
-        net, lines = run_history(ops)
-        reach = net.harness_error
+        runs = run_histories(ops)
+        reach = next((net.harness_error for net, _ in runs if net.harness_error), None)
     except (HarnessReach, AttributeError, TypeError) as e:
         # raised by the harness's own code around the library (the library's exceptions are caught where it is
         # called and judged there): something the harness looks at has moved
-        net, lines, reach = None, None, '%s: %s' % (type(e).__name__, e)
+        runs, reach = None, '%s: %s' % (type(e).__name__, e)
     if reach:
         SKIPPED['n'] += 1
         if reach not in SKIPPED['why'] and len(SKIPPED['why']) < 5:
             SKIPPED['why'].append(reach)
         ctx.stat('history-skipped: the harness could not reach an internal')
         return []
+    vs = []
+    for k, (net, lines) in enumerate(runs):
+        vs.extend(judge_net(ctx, stream, ops, net, lines, collect, first=(k == 0)))
+    if len(runs) > 1:
+        ctx.stat('history-with-%d-buses' % len(runs))
+    return vs
+
+
+def judge_net(ctx, stream, ops, net, lines, collect, first=True):
     SKIPPED['judged'] += 1
     if net.no_model:
         SKIPPED['no_model'] += 1
@@ -1487,7 +1690,8 @@ def judge(ctx, stream, ops, model=True, collect=None):
     impl = impl_lines(net)
     deliveries = sum(len(st.deliv) for st in net.steps)
     cross = any(1 for st in net.steps for j, d in st.deliv if j != st.i)
-    ctx.case(stream, sample={'ops': ops}, nontrivial=cross)
+    if first:
+        ctx.case(stream, sample={'ops': ops}, nontrivial=cross)
     ctx.stat('events', len(net.steps))
     ctx.stat('deliveries', deliveries)
     for st in net.steps:
@@ -1540,11 +1744,14 @@ def judge(ctx, stream, ops, model=True, collect=None):
                          else 'broadcast-with-other-arguments')
     if any(o[0] == 'split' for o in ops):
         ctx.stat('history-with-split-read')
+    if net.model_off:
+        ctx.stat('link-failed-history-continued')
     vs = oracle(net)
+    ctx.stat('owner-reference-vs-bus-table: %s' % ('differs at some event' if net.ref_differs else 'same at every event'))
     for key, what, obs, exp in vs:
         ctx.violation(key, what, inp={'ops': ops}, observed=obs, expected=exp)
     if collect is not None:
-        collect.append((stream, ops, ['reset'] + lines, ['ok'] + impl, net.aborted))
+        collect.append((stream, ops, ['reset'] + lines, ['ok'] + impl, net.aborted or net.model_off))
     return vs
 
 
@@ -1981,6 +2188,111 @@ def name_signal_histories():
         yield ops
 
 
+# --- state that outlives an operation: flags of a waiting connection, several buses, a dropped link
+def requeue_histories():
+    """One name, three clients: A owns it; B asks (flags f1) and, still waiting, asks AGAIN (flags f2: the flags of the
+    latest request count); A releases the name or leaves, so B inherits it; C asks with REPLACE_EXISTING (f3); then
+    calls and signals addressed to the name from A / a bystander, and a release by whoever should own it now.  Who
+    receives them is decided by the reference table of the oracle, never by the bus's own."""
+    for f1 in (0, 1):
+        for f2 in (0, 1, 2, 3, 4, 5):
+            for leave in ('rel', 'disc'):
+                for f3 in (2, 3, 6):
+                    ops, serial = setup3(4)
+                    seq = [['req', 0, 0, 'org.ex.A', 1, 0], ['req', 1, 0, 'org.ex.A', f1, 0],
+                           ['req', 1, 0, 'org.ex.A', f2, 0],
+                           ['rel', 0, 0, 'org.ex.A', 0] if leave == 'rel' else ['disc', 0],
+                           ['req', 2, 0, 'org.ex.A', f3, 0],
+                           ['msg', 3, dict(t=1, serial=0, dest='org.ex.A', path='/x', iface='org.ex.I', member='Foo',
+                                           body='s')],
+                           ['msg', 3, dict(t=4, serial=0, dest='org.ex.A', path='/x', iface='org.ex.I', member='Bar',
+                                           body='none')],
+                           ['rel', 1, 0, 'org.ex.A', 0],
+                           ['msg', 3, dict(t=2, serial=0, dest='org.ex.A', rs=3, body='s')]]
+                    for op in seq:
+                        if op[0] == 'msg':
+                            op[2]['serial'] = serial
+                        elif op[0] != 'disc':
+                            op[2] = serial
+                        serial += 1
+                        ops.append(op)
+                    yield ops
+
+
+def on(k, ops):
+    return [['on', k, op] for op in ops]
+
+
+def two_bus_histories(rng, nrandom):
+    """Two `Bus()` objects of one process, interleaved event by event: what one bus knows (clients, names, rules, the
+    next unique id) must play no part on the other.  Each bus is judged by the oracle on its own events; a write
+    to a client of a bus that is processing nothing is `delivery-outside-any-event`."""
+    X, Y = 0, 1
+    sig = lambda ser: ['msg', 0, dict(t=4, serial=ser, dest=None, path='/x', iface='org.ex.I', member='Foo', body='s')]
+    to = lambda i, dest, ser: ['msg', i, dict(t=1, serial=ser, dest=dest, path='/x', iface='org.ex.I', member='Foo',
+                                              body='s')]
+    ops = (on(X, [['connect'], ['connect']]) + on(Y, [['connect'], ['connect']])
+           + [['on', X, ['hello', 0, 1]], ['on', Y, ['hello', 0, 1]], ['on', X, ['hello', 1, 2]], ['on', Y, ['hello', 1, 2]],
+              ['on', X, ['match', 1, 3, {'interface': 'org.ex.I'}, 0]],
+              ['on', Y, sig(3)],                          # nobody on Y holds a rule
+              ['on', X, ['req', 0, 4, 'org.ex.A', 0, 0]],
+              ['on', Y, to(1, 'org.ex.A', 4)],            # nobody owns org.ex.A on Y
+              ['on', Y, to(0, '@1', 5)], ['on', X, to(0, '@1', 5)],
+              ['on', X, ['disc', 1]],
+              ['on', Y, to(0, '@1', 6)],                  # Y's :1.2 is still there
+              ['on', X, to(0, ':1.2', 6)],                # X's is gone
+              ['on', Y, ['match', 0, 7, {'member': 'Foo'}, 0]],
+              ['on', X, sig(7)],                          # X's only holder left
+              ['on', Y, sig(8)],
+              ['on', Y, ['req', 1, 9, 'org.ex.A', 3, 0]], ['on', X, to(0, 'org.ex.A', 8)], ['on', Y, to(0, 'org.ex.A', 10)],
+              ['on', X, ['connect']], ['on', Y, ['connect']], ['on', X, ['hello', 2, 1]], ['on', Y, ['hello', 2, 1]],
+              ['on', X, to(0, '@2', 9)], ['on', Y, to(1, '@2', 11)], ['on', Y, ['disc', 0]], ['on', X, sig(10)]])
+    yield ops
+    alpha = lifecycle_alphabet()
+    for _ in range(nrandom):
+        a = lifecycle_history([rng.choice(alpha) for _ in range(rng.choice([3, 4, 6]))])
+        b = (lifecycle_history([rng.choice(alpha) for _ in range(rng.choice([3, 4, 6]))]) if rng.random() < 0.5
+             else random_full_history(rng))
+        a, b = on(X, a), on(Y, b)
+        out = []
+        while a or b:
+            src = a if (a and (not b or rng.random() < 0.5)) else b
+            out.append(src.pop(0))
+        yield out
+
+
+def dropped_link_histories():
+    """A client sends a frame that is not a DBus message: the exception out of dataReceived costs THAT client its
+    connection.  Everybody else goes on: the name it owned passes to the waiter, its rule is gone, its unique name
+    leads nowhere and is not given out again, a newcomer gets a fresh one."""
+    for victim in (0, 1, 2):
+        for second in (False, True):
+            ops, serial = setup3(3)
+            ops += [['req', 1, serial, 'org.ex.A', 0, 0], ['req', 2, serial + 1, 'org.ex.A', 0, 0],
+                    ['req', 0, serial + 2, 'org.ex.B', 1, 0],
+                    ['match', 1, serial + 3, {'interface': 'org.ex.I'}, 0], ['match', 0, serial + 4, {'member': 'Foo'}, 0],
+                    ['garbage', victim, serial + 5]]
+            serial += 6
+            other = [x for x in (0, 1, 2) if x != victim]
+            ops += [['msg', other[0], dict(t=4, serial=serial, dest=None, path='/x', iface='org.ex.I', member='Foo',
+                                           body='s')],
+                    ['msg', other[0], dict(t=1, serial=serial + 1, dest='@%d' % victim, path='/x', member='Foo', body='s')],
+                    ['msg', other[1], dict(t=1, serial=serial + 2, dest='org.ex.A', path='/x', member='Foo', body='s')],
+                    ['msg', other[1], dict(t=2, serial=serial + 3, dest='org.ex.B', rs=3, body='none')],
+                    ['connect'], ['hello', 3, 1],
+                    ['msg', 3, dict(t=1, serial=2, dest='@%d' % other[0], path='/x', member='Foo', body='s')],
+                    ['msg', other[0], dict(t=1, serial=serial + 4, dest='@3', path='/x', member='Foo', body='s')],
+                    ['req', 3, 3, 'org.ex.A', 2, 0],
+                    ['msg', other[1], dict(t=4, serial=serial + 5, dest='org.ex.A', path='/y', iface='org.ex.J',
+                                           member='Bar', body='none')]]
+            if second:
+                ops += [['garbage', other[0], serial + 6],
+                        ['msg', other[1], dict(t=4, serial=serial + 7, dest=None, path='/x', iface='org.ex.I',
+                                               member='Foo', body='s')],
+                        ['msg', 3, dict(t=1, serial=4, dest='org.ex.B', path='/x', member='Foo', body='s')]]
+            yield ops
+
+
 def random_full_history(rng):
     """3-4 clients; several rules with path_namespace / argN / argNpath / arg0namespace constraints (always some);
     broadcasts whose paths and bodies are drawn from the pools those constraints talk about; name requests (the bus's
@@ -2179,8 +2491,7 @@ def shrink(ops, key, budget=150):
     """Drop operations (never a connect: indices would shift) while the same violation key remains."""
     def has(o):
         try:
-            net, _ = run_history(o)
-            return any(v[0] == key for v in oracle(net))
+            return any(v[0] == key for v in oracle_all(o))
         except Exception:
             return False
     cur = list(ops)
@@ -2188,7 +2499,7 @@ def shrink(ops, key, budget=150):
     while changed and budget > 0:
         changed = False
         for k in range(len(cur) - 1, -1, -1):
-            if cur[k][0] == 'connect':
+            if cur[k][0] == 'connect' or (cur[k][0] == 'on' and cur[k][2][0] == 'connect'):
                 continue
             cand = cur[:k] + cur[k + 1:]
             budget -= 1
@@ -2238,6 +2549,8 @@ def run(ctx):
             go('interleavings-exhaustive', ops)
     for ops in many_connections_histories():
         go('interleavings-exhaustive', ops)
+    for ops in requeue_histories():
+        go('interleavings-exhaustive', ops)
     for ops in split_read_histories():
         go('interleavings-exhaustive', ops)
     ctx.exhaustive = True
@@ -2263,6 +2576,12 @@ def run(ctx):
         ctx.note('advisory: %d rule texts could not be obtained from the real txdbus client and were written by the '
                  'harness' % CLIENT_TEXTS['fallback'])
     ctx.note('rule texts written by the real DBusClientConnection.addMatch: %d' % CLIENT_TEXTS['n'])
+
+    # several buses in one process, interleaved; a client whose link fails while the others go on
+    for ops in two_bus_histories(ctx.rng, ctx.scale(quick=40, thorough=600)):
+        go('buses-and-dropped-links', ops)
+    for ops in dropped_link_histories():
+        go('buses-and-dropped-links', ops)
 
     n = ctx.scale(quick=330, thorough=9000)
     for k in range(n):
@@ -2291,8 +2610,7 @@ def run(ctx):
             continue
         small = shrink(v['input']['ops'], v['key'])
         if len(small) < len(v['input']['ops']):
-            net, _ = run_history(small)
-            for key, what, obs, exp in oracle(net):
+            for key, what, obs, exp in oracle_all(small):
                 if key == v['key']:
                     v.update(input={'ops': small}, what=what, observed=obs, expected=exp)
                     break
